@@ -139,6 +139,20 @@ pub struct Scratch {
 impl Scratch {
     pub fn new(tag: &str) -> Self {
         let base = if std::path::Path::new("/dev/shm").is_dir() { "/dev/shm" } else { "/tmp" };
+        // scratch of runs that were killed (their Drop never ran): remove if the owner is gone
+        if let Ok(rd) = std::fs::read_dir(base) {
+            for e in rd.filter_map(|e| e.ok()) {
+                let name = e.file_name().to_string_lossy().into_owned();
+                if let Some(rest) = name.strip_prefix("ascasim.") {
+                    if let Some(pid) = rest.split('.').next().and_then(|p| p.parse::<u32>().ok()) {
+                        if !std::path::Path::new(&format!("/proc/{pid}")).exists() {
+                            let _ = std::fs::remove_dir_all(e.path());
+                            let _ = std::fs::remove_file(e.path());
+                        }
+                    }
+                }
+            }
+        }
         let path = format!("{base}/ascasim.{}.{tag}", std::process::id());
         let _ = std::fs::remove_dir_all(&path);
         std::fs::create_dir_all(&path).unwrap_or_else(|e| {
